@@ -128,11 +128,12 @@ NQ_CLASSES = [-1, 0, 0, 1, 1, 2, 3, 4, 8, 31, 32, 33, 34, 40, 66, 70, 100]
 
 def pair(rng, tier, nb=None, nq=None):
     """(dividend magnitude, divisor magnitude)"""
+    free = nb is None and nq is None
     if nb is None:
         nb = rng.choice(NB_CLASSES)
     if nq is None:
         nq = rng.choice(NQ_CLASSES)
-    if tier == "thorough" and rng.chance(1, 40):
+    if free and tier == "thorough" and rng.chance(1, 40):  # never override a size the caller fixed (mc needs a dword divisor)
         nb, nq = rng.choice([(200, 300), (129, 130), (500, 100), (100, 500), (1000, 1100)])
     b = divisor(rng, nb)
     if nq < 0:
